@@ -291,6 +291,15 @@ def r16_2(ctx: Ctx) -> None:
                 for e, truth in path_facts(cfg, call)):
             continue
         strips.append((call, subject))
+    for call, subject in strips:
+        par = getattr(call, "_parent", None)
+        if last_attr(call) == "replace" and isinstance(par, ast.Assign) and enclosing_loops(call, stop=func):
+            target = txt(par.targets[0])
+            ctx.ob("R16.2", RP, par, qual, f"strip accumulates in {target}", target == subject,
+                   "inside the loop over characters each removal is applied to the value accumulated so far "
+                   "(`x = x.replace(c, '')`); applying it to the original string keeps only the last removal",
+                   detail="" if target == subject else f"`{target}` is rebuilt from `{subject}` in every iteration",
+                   form=stmt_key(par))
     subjects = set()
     for call, subject in strips:
         subjects.add(inline_text(cfg, call, subject))
